@@ -93,10 +93,15 @@ func runC11(c *Ctx) {
 		for _, b := range fn.Blocks {
 			for _, ins := range b.Instrs {
 				if d, ok := ins.(*ssa.Defer); ok {
+					// a deferred function literal, or a deferred named function of the package, that rolls back
+					var df *ssa.Function
 					if mc, ok := d.Call.Value.(*ssa.MakeClosure); ok {
-						if f, ok := mc.Fn.(*ssa.Function); ok && len(callsNamedDeep(f, "Rollback")) > 0 {
-							deferIns = d
-						}
+						df, _ = mc.Fn.(*ssa.Function)
+					} else if g := d.Call.StaticCallee(); g != nil && fnPkgPath(g) == fnPkgPath(fn) && len(g.Blocks) > 0 {
+						df = g
+					}
+					if df != nil && len(callsNamedDeep(df, "Rollback")) > 0 {
+						deferIns = d
 					}
 				}
 			}
@@ -112,7 +117,12 @@ func runC11(c *Ctx) {
 		}
 		c.Check("C11-R1", name+"-deferred-rollback-before-function", fn.Pos(), okDefer, "db."+name+" runs the supplied function without a deferred rollback registered first: a panic leaves the transaction (and the writer lock) open")
 		if deferIns != nil {
-			dcl := deferIns.Call.Value.(*ssa.MakeClosure).Fn.(*ssa.Function)
+			var dcl *ssa.Function
+			if mc, ok := deferIns.Call.Value.(*ssa.MakeClosure); ok {
+				dcl = mc.Fn.(*ssa.Function)
+			} else {
+				dcl = deferIns.Call.StaticCallee()
+			}
 			// inside the deferred closure, Rollback is skipped only when no transaction exists
 			q := &PathQuery{Fn: dcl, Barrier: isCallNamedAny("Rollback")}
 			q.EdgeBarrier = func(from *ssa.BasicBlock, si int) bool {
@@ -122,7 +132,18 @@ func runC11(c *Ctx) {
 				}
 				// the tested value is the captured transaction variable
 				sl := &Slicer{P: p, KeepExtract: true}
+				var origins []ssa.Value
 				for _, o := range sl.Origins(f.V) {
+					// a deferred named function tests its parameter: the transaction handed over at the defer statement
+					if prm, isPrm := o.(*ssa.Parameter); isPrm && prm.Parent() == dcl {
+						if i := paramIndex(dcl, prm); i >= 0 && i < len(deferIns.Call.Args) {
+							origins = append(origins, sl.Origins(deferIns.Call.Args[i])...)
+							continue
+						}
+					}
+					origins = append(origins, o)
+				}
+				for _, o := range origins {
 					ex, ok := o.(*ssa.Extract)
 					if !ok || ex.Index != 0 {
 						return false
